@@ -315,11 +315,15 @@ def sched_case(
         case["warm"] = True  # the instance has been called once before it is (re)configured and observed
     if nested_rate and not case.get("sel") and case.get("call") != "setup" and not n_params and gen.chance(draw, nested_rate):
         case["nested"] = True  # the program is called as a DAG nested in an outer DAG
-    elif nested_rate and case.get("call") != "setup" and not n_params and gen.chance(draw, nested_rate):
+    elif nested_rate and case.get("call") != "setup" and not n_params and gen.chance(draw, 0.3):
         # the DAG object that runs is derived from the described one: a deep copy, compose() of everything, an executor
         plain_ret = all(e[0] == "v" for e in P["ret"][1])
         opts = ["deepcopy", "executor"] + (["compose"] if plain_ret and not case.get("sel") and not any(f.get("setup") or f.get("debug") for f in P["fns"].values()) else [])
+        if not case.get("sel") and not case.get("failing") and not flags and not any(f.get("setup") or f.get("debug") or f.get("kind") == "const" for f in P["fns"].values()):
+            opts.append("cache")
         case["derive"] = draw(st.sampled_from(opts))
+        if case["derive"] == "cache":
+            case["cached"] = draw(st.lists(st.sampled_from(sites), min_size=1, max_size=max(1, len(sites) // 2), unique=True))
     if profile_rate and draw(st.floats(0, 1)) < profile_rate:
         case["profile"] = True  # cfg.TAWAZI_PROFILE_ALL_NODES: every node runs inside the profiling context
     if config_rate and draw(st.floats(0, 1)) < config_rate:
